@@ -39,4 +39,34 @@ inductive TInstr
   | rawWrite (cell : String)             -- non-atomic store of (register + the method's argument)
 deriving DecidableEq, Repr
 
+
+/-! ### `ProcessBody`, translated statement by statement (tools/facts/sec_body.go) -/
+
+/-- the conditions the translator recognises -/
+inductive BCond
+  | noPostProcessing          -- disableAssetsCapture && !domainsCrawl && maxHops == 0
+  | mimeNeedsPost             -- the test on the sniffed MIME type
+  | other (src : String)      -- any other condition: both branches are possible
+deriving DecidableEq, Repr
+
+mutual
+/-- statements, as far as the response body is concerned -/
+inductive BStmt
+  | drain                     -- read the body to its end, discarding it
+  | sniff (n : Nat)           -- read at most `n` bytes
+  | spool                     -- read the body to its end into the spooled buffer
+  | keep                      -- attach the spooled buffer to the URL
+  | ite (c : BCond) (t e : BBlock)
+  | ret                       -- return nil
+  | retErr                    -- return an error
+  | skip (src : String)       -- does not read the body, does not return
+  | opaque (src : String)     -- not understood by the translator
+inductive BBlock
+  | nil
+  | cons (s : BStmt) (rest : BBlock)
+end
+
+instance : Repr BStmt := ⟨fun _ _ => "<statement>"⟩
+instance : Repr BBlock := ⟨fun _ _ => "<block>"⟩
+
 end Zeno
